@@ -218,6 +218,23 @@ def check_case(case):
         kw['submodels'] = rep.seq(case['select'])      # a tuple, a dict-keys view or an array selects the same submodels
     rep.tag(res)
     before = {sid: snapshot.snapshot(m) for sid, m in subs.items()}
+    if case.get('history') == 'warm-restore':
+        # the same call was made once before on these objects; afterwards every series and the solution records were put
+        # back by whole-series assignment (new array objects, the initial contents) - the measured call starts afresh
+        attempt(linker.solve_t, t, **kw)
+        linker.L = [5.0 + i for i in range(n)]
+        linker.status = '-'
+        linker.iterations = -1
+        for m_ in subs.values():
+            m_.A = [1.0 + i for i in range(len(m_.span))]
+            m_.status = '-'
+            m_.iterations = -1
+            for key in ('_log', '_vals'):
+                if key in m_.__dict__:
+                    del m_.__dict__[key][:]
+        del glog[:]
+        before = {sid: snapshot.snapshot(m_) for sid, m_ in subs.items()}
+        res.tag('history:warm-restore')
     if case.get('via_solve'):
         # the multi-period entry point restricted to the one period: every option has to be forwarded to solve_t
         got = attempt(linker.solve, start=T, end=T, **kw)
@@ -289,6 +306,8 @@ def gen_lattice(bound):
             if case['subs'] and all(not sp.get('span') for sp in case['subs']) and \
                     (case.get('select') is not None or case['opts'].get('offset') or i % 7 == 0):
                 yield dict(case, via_solve=True)
+            if case['subs'] and all(not sp.get('span') for sp in case['subs']) and i % 5 == 2:
+                yield dict(case, history='warm-restore')
     return gen
 
 
